@@ -20,6 +20,7 @@ RULE = ('adapters {unwrap_kiwi_future, plum_to_kiwi_future (+unwrap), create_tas
         '{value, falsy value, exception, cancellation} at the innermost level reached x every order of completing the levels (inner before the '
         'outer resolves to it, and after) x completing thread {loop thread, other thread}; CancellableAction x {run, run twice, cancel then run, '
         'raising action, run with args}; exhaustive for depth <=3 same-thread, depth 4 and thread mode sampled; non-trivial when depth >= 2')
+RULE += ('; also: create_task with raising factories and coroutines ending by cancellation, plain subscribers converted by convert_to_comm() handing back chains of loop futures (the innermost possibly of another loop), re-entrant CancellableAction runs, a subscriber called from a communicator thread with an injected delay')
 ASSUMPTIONS = ['a coroutine given to create_task that ends by cancellation, and a future handed back by a _schedule_rpc callback that ends cancelled, must make '
                'the returned future end cancelled (the mirror rule of the statement: through convert_to_comm the reply is the mirror of that future)',
                'an exception raised by a _schedule_rpc callback may arrive wrapped, as long as it chains to the original',
